@@ -661,6 +661,12 @@ class SymEval:
             return BIN[type(n.op)](a, b)
         except KeyError:
             raise Opaque('operator ' + norm(n))
+        except ValueError as e:
+            if 'broadcast' in str(e):      # numpy itself refuses these operand shapes
+                if self.try_depth > 0:
+                    raise _PyRaise('ValueError', e)
+                raise WouldRaise('ValueError: %s in %s' % (e, norm(n)))
+            raise
 
     def e_BoolOp(self, n, p):
         vals = []
@@ -955,6 +961,8 @@ class SymEval:
         v = self.ev(s, p)
         if isinstance(v, sp.Integer):
             return int(v)
+        if isinstance(v, tuple) and any(is_arr(x) for x in v):
+            return tuple(v)            # multi-dimensional fancy index, e.g. the tuple returned by np.where
         if isinstance(v, (list, tuple)):
             if v and all(isinstance(x, bool) for x in v):
                 return np.array(v, dtype=bool)
